@@ -81,9 +81,31 @@ func (p *Pkg) HasExtTest() bool {
 	return false
 }
 
-// OutcomePaths lists the import paths under which the drivers report the
-// given roots: the package itself and, if it has one, its external test package.
+// OutcomePaths lists the package IDs under which the drivers report the
+// given roots: the package itself, its test variant "p [p.test]" if it has
+// in-package test files, and its external test package "p_test [p.test]".
+// Outcomes are kept per ID (not merged per import path): which variant reports
+// a finding is part of what must not depend on the driver or the schedule.
 func (w *World) OutcomePaths(roots []string) []string {
+	var out []string
+	for _, r := range roots {
+		out = append(out, r)
+		if i := w.Index(r); i >= 0 {
+			if w.Pkgs[i].HasTestFiles() {
+				out = append(out, fmt.Sprintf("%s [%s.test]", r, r))
+			}
+			if w.Pkgs[i].HasExtTest() {
+				out = append(out, fmt.Sprintf("%s_test [%s.test]", r, r))
+			}
+		}
+	}
+	return out
+}
+
+// OutcomePathsMerged is OutcomePaths for outcomes whose variants have been
+// merged per import path (see driver.Outcome.MergeVariants): the package and,
+// if any, its external test package.
+func (w *World) OutcomePathsMerged(roots []string) []string {
 	var out []string
 	for _, r := range roots {
 		out = append(out, r)
@@ -92,6 +114,14 @@ func (w *World) OutcomePaths(roots []string) []string {
 		}
 	}
 	return out
+}
+
+// BasePath maps a package ID back to the import path of the world package it belongs to.
+func BasePath(id string) string {
+	if i := strings.Index(id, " ["); i >= 0 {
+		id = id[:i]
+	}
+	return strings.TrimSuffix(id, "_test")
 }
 
 // TransitiveDeps returns the indices of all packages reachable from i (excluding i), sorted.
